@@ -98,13 +98,14 @@ class _UnitOb(AxisOb):
 class DiffUnits(_UnitOb):
     """faces x L, D x L^2/T, phi x K  =>  (M phi) x K/T"""
     name = 'diffusionTerm/unit_invariance'
+    d_length_power = 2
 
     def setup(self, w):
         L, Tt, K, fs = self.scales(w)
         D = w.facevar('D')
         phi = w.rawcell('phi')
         m2 = w.scaled_mesh(fs)
-        D2 = self.scaled_facevar(w, m2, D, L * L / Tt)
+        D2 = self.scaled_facevar(w, m2, D, (L * L if self.d_length_power == 2 else L) / Tt)
         M, ps = parts(builder(dif, 'diffusionTerm', w.grid)(D))
         M2, ps2 = parts(builder(dif, 'diffusionTerm', w.grid)(D2))
         return dict(ps=ps, ps2=ps2, phi=phi._value, phi2=phi._value * K, f=K / Tt)
